@@ -126,7 +126,15 @@ class GeckoSnapshot:
         )
 
     def _re_data_segment(self, groups):
-        data = groups[0].replace("'", "\\x27")
+        # Escape single quotes for the literal below. bytes.__repr__ may already
+        # have escaped them (when the data also contains a double quote), so work
+        # on whole escape sequences rather than on single characters
+        data = re.sub(
+            r"\\.|'",
+            lambda m: "\\x27" if m.group(0) in ("'", "\\'") else m.group(0),
+            groups[0],
+            flags=re.DOTALL,
+        )
         bytes_ = ast.literal_eval(f"b'{data}'")
         self._status_block_handler.handle(bytes_, None)
         self._status_block_segments.append(self._status_block_handler.data)
